@@ -170,6 +170,25 @@ def writers(R):
     vals = {(flag, fold(R, v, c)) for (flag, c, s, v) in allst if c.func.qual == q}
     R.ob('C08.writers', 'on_disconnect leaves (closing=False, closed=True)', vals == {('closing', False), ('closed', True)},
          'on_disconnect stores %s' % sorted(vals), func=q, node=None, construct='on_disconnect flags %s' % sorted(vals))
+    # ... and only once the transport is gone: the flags flip after session.close() (between `closing = False` and
+    # `closed = True` no send is refused by the state - harmless only while the socket is already closed)
+    gd = R.cfg(q)
+    scl = [n for (n, _) in calls_to(R, gd, S + '.close')]
+    for (flag, c, s, v) in allst:
+        if c.func.qual != q:
+            continue
+        nn = [m for m in gd.live_nodes() if m.ast is s]
+        if not nn:
+            continue
+        lits = {(t_, p_) for (t_, p_, _) in guards_of(gd, nn[0])}
+        nosess = any(t_.endswith('session is None') and p_ for (t_, p_) in lits)
+        okd = nosess or (bool(scl) and all(
+            any(nn[0] in gd.succ_reach(x, skip_edge=nx) for x in scl) and True for _ in [0]) and not any(
+                x in gd.succ_reach(nn[0], skip_edge=nx) for x in scl))
+        R.ob('C08.writers', 'on_disconnect: %s is stored after the session was closed' % flag, okd,
+             'on_disconnect() stores State.%s before session.close(): while the socket is still open there is a moment with '
+             'closing and closed both false (or closed already true) - a send from another thread is written after the Close '
+             'frame instead of being refused' % flag, func=q, node=s, construct='on_disconnect: %s before session.close' % flag)
     vals = {(flag, fold(R, v, c)) for (flag, c, s, v) in allst if c.func.qual == ST + '.__init__'}
     R.ob('C08.writers', 'initial state (False, False)', vals == {('closing', False), ('closed', False)},
          'State.__init__ stores %s' % sorted(vals), func=ST + '.__init__', node=None, construct='initial flags')
